@@ -5,7 +5,7 @@
    shape) are in Merkle/Tree.v and Merkle/Ref.v; the verifiers transliterated from
    embedded/ahtree/verification.go and embedded/htree/htree.go are in Merkle/Verify.v. *)
 From V Require Import Merkle.Verify Merkle.Sound Merkle.Levels Merkle.Honest Merkle.Exact Merkle.RefEq Merkle.Main.
-From V Require Import Merkle.RefPath Merkle.HExact Merkle.AHT Merkle.AHTArith Merkle.AHTSpec Merkle.AHTInv Merkle.AHTIncl Merkle.AHTCons Merkle.ConsComplete Merkle.ConsExact Merkle.AHTMain Merkle.InclUnique Merkle.LastIncl.
+From V Require Import Merkle.RefPath Merkle.HExact Merkle.AHT Merkle.AHTArith Merkle.AHTSpec Merkle.AHTInv Merkle.AHTIncl Merkle.AHTCons Merkle.ConsComplete Merkle.ConsExact Merkle.AHTMain Merkle.InclUnique Merkle.LastIncl Merkle.VerifyFixed Merkle.ConsFixed.
 
 (* The reference tree over a non-empty list of payloads has exactly those payloads as leaves, in
    order (so `mth L` commits to L and to nothing else). *)
@@ -193,7 +193,7 @@ Proof. exact aht_inclusion_proof_verifies. Qed.
 Print Assumptions C08_aht_inclusion_proof_verifies.
 
 (* Every reachable state is observationally (size, every RootAt — also its errors —, every
-   InclusionProof and ConsistencyProof — also i = 0, errors and the j = 0 panic) the tree obtained
+   InclusionProof and ConsistencyProof — also their errors for i = 0, i > j, j > size) the tree obtained
    by appending its payloads to an empty tree: the stale tails ResetSize leaves behind are never
    read. *)
 Theorem C08_aht_history_irrelevant :
@@ -223,13 +223,13 @@ Print Assumptions C08_aht_reset_append.
 
 (* ---- consistency completeness ---- *)
 
-(* AHtree.ConsistencyProof(i, j) never fails for i <= j, 1 <= j <= size (no condition on i) and is
+(* AHtree.ConsistencyProof(i, j) never fails for 1 <= i <= j <= size and is
    the function `consistency_ref_proof` (= cons_ref, Merkle/AHTCons.v: the code's recursion reading
    the meant digests) of the payloads, for every history. *)
 Theorem C08_aht_consistency_proof_is_ref :
   forall (H : bytes -> bytes) (ops : list aop) (i j : N),
     let t := aht_run H ops in
-    i <= j -> 1 <= j -> j <= size t ->
+    1 <= i -> i <= j -> j <= size t ->
     consistency_proof t i j = Ok (consistency_ref_proof H (final_payloads ops) i j).
 Proof. exact aht_consistency_proof_is_ref. Qed.
 Print Assumptions C08_aht_consistency_proof_is_ref.
@@ -326,3 +326,50 @@ Theorem C08_aht_last_inclusion_proof_verifies :
                 verify_last_inclusion H p i (leafh H d) r = true.
 Proof. exact aht_last_inclusion_proof_verifies. Qed.
 Print Assumptions C08_aht_last_inclusion_proof_verifies.
+
+(* ---- the PROPOSED repair of ahtree.VerifyConsistency (fixes/C08-consistency-length.diff: after the
+   `i == j && len(cproof) == 0` case require len(cproof) == consistencyProofLen(i, j)); model
+   Merkle/VerifyFixed.v.  Until the diff is in /repo the tie runs the verifier as it stands (Tie/C08.v
+   `vcons`); these theorems say what the repair achieves. ---- *)
+
+(* consistencyProofLen(i, j) is the number of terms AHtree.ConsistencyProof(i, j) returns. *)
+Theorem C08_consistency_proof_len_is_generator_length :
+  forall (H : bytes -> bytes) (L : list bytes) (i j : N),
+    lenN (consistency_ref_proof H L i j) = consistency_proof_len i j.
+Proof. exact consistency_proof_len_spec. Qed.
+Print Assumptions C08_consistency_proof_len_is_generator_length.
+
+(* The repaired verifier is POSITION-EXACT with no premise on the proof: an accepted old root is the
+   root of exactly the first i payloads and 1 <= i <= j, or a collision is exhibited. *)
+Theorem C08_consistency_fixed_sound_exact :
+  forall (H : bytes -> bytes), (forall x, length (H x) = 32%nat) ->
+  forall (L cproof : list bytes) (i j : N) (iroot : bytes),
+    L <> [] -> j = lenN L -> len32 cproof ->
+    verify_consistency_fixed H cproof i j iroot (mth H L) = Ok true ->
+    (iroot = mth H (firstn (N.to_nat i) L) /\ 1 <= i <= j) \/ Collision H.
+Proof. exact consistency_fixed_sound_exact. Qed.
+Print Assumptions C08_consistency_fixed_sound_exact.
+
+(* It still accepts every generated proof ... *)
+Theorem C08_consistency_fixed_complete :
+  forall (H : bytes -> bytes) (L : list bytes) (i j : N),
+    1 <= i -> i <= j -> j <= lenN L ->
+    verify_consistency_fixed H (consistency_ref_proof H L i j) i j
+      (mth H (firstn (N.to_nat i) L)) (mth H (firstn (N.to_nat j) L)) = Ok true.
+Proof. exact consistency_fixed_complete. Qed.
+Print Assumptions C08_consistency_fixed_complete.
+
+(* ... accepts nothing the present verifier rejects, and never panics. *)
+Theorem C08_consistency_fixed_implies_present :
+  forall (H : bytes -> bytes) (cproof : list bytes) (i j : N) (iroot jroot : bytes),
+    verify_consistency_fixed H cproof i j iroot jroot = Ok true ->
+    verify_consistency H cproof i j iroot jroot = Ok true /\
+    ((i = j /\ cproof = []) \/ lenN cproof = consistency_proof_len i j).
+Proof. exact fixed_implies_old. Qed.
+Print Assumptions C08_consistency_fixed_implies_present.
+
+Theorem C08_consistency_fixed_no_panic :
+  forall (H : bytes -> bytes) (cproof : list bytes) (i j : N) (iroot jroot : bytes),
+    verify_consistency_fixed H cproof i j iroot jroot <> Panic.
+Proof. exact verify_consistency_fixed_no_panic. Qed.
+Print Assumptions C08_consistency_fixed_no_panic.
